@@ -92,8 +92,8 @@ func Witnesses() []Case {
 		// forced STARTTLS attempt with an informational / ineligible feature value
 		{Cfg: []Beh{tlsInfo}, Script: []Item{hdr, adv()}, Fault: "-"},
 		{Cfg: []Beh{tlsMask}, Script: []Item{hdr, adv()}, Fault: "-", Peer: polite},
-		// known finding: a mandatory feature that only becomes eligible through a voluntary
-		// feature of the same list is left out when the session is reported established
+		// a mandatory feature that only becomes eligible through a voluntary feature of the
+		// same list was left out when the session was reported established
 		{Cfg: []Beh{a, func() Beh { m := f(3); m.Nec = Authn; m.ListReq = true; return m }()},
 			Script: []Item{hdr, adv(AdvItem{NS: 2, Loc: 1}, AdvItem{NS: 3, Loc: 1, Req: true})}, Fault: "-"},
 	}
